@@ -115,6 +115,17 @@ extern "C" int h_c08() {
     for (int k = 0; k < n; ++k) v[k].points_nonConst().point_nonConst(0).y(__vp_sym_f32("m"));   // caller keeps mutating
     dump_d(c, "after");
   }
+  if (fam == 4) {
+    // the frame handed over is one of the data set's own frames (append: the data set grows while the argument is read)
+    const int n = __vp_cfg("times");
+    for (int k = 0; k < n; ++k) c.frame(sym_frame(P, C, S, "f"));
+    dump_d(c, "before");
+    const int how = __vp_cfg("column");
+    if (how == 0) c.frame(c.data().frame(0));
+    else if (how == 1) c.frame(c.data().frame(n - 1), (size_t)n + 1);
+    else c.frame(c.data().frame(0), (size_t)n - 1);
+    dump_d(c, "after");
+  }
   __vp_reached("c08.end");
   return 0;
 }
